@@ -1,7 +1,7 @@
 (* Run.v — command dispatcher: one S-expression in, one S-expression out.
    This is what the OCaml driver calls; each command evaluates model functions on a case that the
    Python harness also runs on the rebuilt implementation. *)
-From OptreeModel Require Export Wire Flatten Unflatten Spec.
+From OptreeModel Require Export Wire Flatten Unflatten Spec Ops.
 
 Definition bad : sexp := SL [SI 2].   (* undecodable input: a harness error, never a verdict *)
 
@@ -72,6 +72,50 @@ Definition cmd_pair (c1 : cfg) (o1 : obj) (c2 : cfg) (o2 : obj) : sexp :=
   | _, _ => SL [SI 5]     (* one of the trees does not flatten: not a case for this command *)
   end.
 
+(* the finite family of mapped functions used by the harness *)
+Definition fun_of_code (code : Z) (i : nat) (row : list obj) : res obj :=
+  let base (k : Z) : res obj :=
+    match row with
+    | [] => Err InternalError
+    | x :: _ =>
+      if Z.eqb k 0 then Ok x
+      else if Z.eqb k 1 then Ok (Node HTuple row)
+      else Ok (Node HList [x; Leaf 7])
+    end in
+  if Z.leb 100 code then
+    if Nat.eqb i (Z.to_nat (code - 100)) then Err (UserExn 77) else base 0
+  else base code.
+
+(* cmd 4: tree_map with a recording function *)
+Definition cmd_map (c : cfg) (code : Z) (t : obj) (rests : list obj) : sexp :=
+  let '(r, tr) := tree_map_trace c (fun_of_code code) t rests in
+  SL [enc_res enc_obj r; SL (map enc_objs tr)].
+
+(* cmd 5: the broadcast family on two trees *)
+Definition cmd_broadcast (c : cfg) (t1 t2 : obj) : sexp :=
+  SL [ enc_res enc_obj (tree_broadcast_prefix c t1 t2);
+       enc_res enc_objs (broadcast_prefix c t1 t2);
+       enc_res (fun '(a, b) => SL [enc_obj a; enc_obj b]) (tree_broadcast_common c t1 t2);
+       enc_res (fun '(a, b) => SL [enc_objs a; enc_objs b]) (broadcast_common c t1 t2) ].
+
+(* cmd 6: tree_transpose; the outer and inner treespecs are those of two trees *)
+Definition cmd_transpose (c : cfg) (oo oi t : obj) : sexp :=
+  match flatten c oo, flatten c oi with
+  | Ok (_, so), Ok (_, si) =>
+    match sspec_of so, sspec_of si with
+    | Some o, Some i =>
+      let r := tree_transpose c o i t in
+      SL [SI 0; enc_res enc_obj r;
+          (* transposing back *)
+          match r with
+          | Ok t' => enc_res enc_obj (tree_transpose c i o t')
+          | Err _ => SL []
+          end]
+    | _, _ => SL [SI 4]
+    end
+  | _, _ => SL [SI 5]
+  end.
+
 Definition run (s : sexp) : sexp :=
   match s with
   | SL [SI 1; c; o] =>
@@ -87,6 +131,21 @@ Definition run (s : sexp) : sexp :=
   | SL [SI 3; c1; o1; c2; o2] =>
     match dec_cfg c1, dec_obj o1, dec_cfg c2, dec_obj o2 with
     | Some c1', Some o1', Some c2', Some o2' => cmd_pair c1' o1' c2' o2'
+    | _, _, _, _ => bad
+    end
+  | SL [SI 4; c; SI code; t; SL rests] =>
+    match dec_cfg c, dec_obj t, omapM dec_obj rests with
+    | Some c', Some t', Some rs => cmd_map c' code t' rs
+    | _, _, _ => bad
+    end
+  | SL [SI 5; c; t1; t2] =>
+    match dec_cfg c, dec_obj t1, dec_obj t2 with
+    | Some c', Some a, Some b => cmd_broadcast c' a b
+    | _, _, _ => bad
+    end
+  | SL [SI 6; c; oo; oi; t] =>
+    match dec_cfg c, dec_obj oo, dec_obj oi, dec_obj t with
+    | Some c', Some a, Some b, Some t' => cmd_transpose c' a b t'
     | _, _, _, _ => bad
     end
   | _ => bad
